@@ -221,8 +221,9 @@ def _cold(case):
     env = dict(os.environ, PYTHONPATH="%s:%s" % (REPO, HERE), PYTHONHASHSEED="0")
     import re as _re
     sizes = [len(j["text"]) - 3 for j in case["jobs"] if j["kind"] == "enc" and _re.fullmatch(r"C1C+1", j["text"])]
+    scan_lo = max(1, min(sizes) - 2) if sizes and max(sizes) > 150 else 1
     q = dict(jobs=case["jobs"], threads=case["threads"], rounds=case["rounds"], rotate=case.get("rotate", True),
-             scan_rings=(max(sizes) + 3 if sizes else 0))
+             scan_rings=(max(sizes) + 3 if sizes else 0), scan_lo=scan_lo)
     p = subprocess.run([sys.executable, "-m", "vf.coldstress"], input=json.dumps(q).encode(), stdout=subprocess.PIPE,
                        stderr=subprocess.PIPE, env=env, timeout=600)
     if p.returncode != 0:
@@ -237,7 +238,7 @@ def _cold(case):
         m = out["mismatches"][0]
         fail = Fail("cold:concurrent_differs_from_serial:" + m["job"]["kind"], **m)
     if fail is None:
-        for n, got in enumerate(out.get("ring_scan", []), start=1):
+        for n, got in enumerate(out.get("ring_scan", []), start=scan_lo):
             if got != _ring_expected(n):
                 fail = Fail("cold:table_corrupted_by_concurrent_first_use:enc", ring_n=n, got=str(got)[-160:], want=_ring_expected(n)[-160:])
                 break
@@ -341,6 +342,8 @@ COLD_LEGACY = ["[C][Branch3_1][C][C][C][F][Cl]", "[C][C][C][C][Expl=Ring3][C][C]
 
 def gen_cold(ch):
     jobs = []
+    # ring / branch sizes of one case come from one band, so that the post-race scan of that band stays cheap
+    band = ch.weighted([(6, (3, 140)), (2, (236, 300)), (1, (500, 560))])
     for _ in range(ch.int(3, 6)):
         w = ch.int(0, 5)
         if w == 5:
@@ -351,10 +354,10 @@ def gen_cold(ch):
         elif w == 1:
             jobs.append(dict(kind="dec", text=ch.pick(DEC_POOL).replace("{u}", "13"), flags=dict(attribute=ch.bool(30))))
         elif w == 2:
-            n = ch.weighted([(3, ch.int(3, 40)), (2, ch.int(40, 140))])
+            n = ch.int(band[0], band[1])
             jobs.append(dict(kind="enc", text="C1" + "C" * n + "1", flags={}))
         elif w == 3:
-            n = ch.weighted([(3, ch.int(1, 40)), (2, ch.int(40, 300))])
+            n = ch.int(band[0], min(band[1], 600))
             jobs.append(dict(kind="enc", text="S(" + "C" * n + ")(F)Cl", flags={}))
         else:
             jobs.append(dict(kind="enc", text=ch.pick(ENC_POOL).replace("{u}", "13"), flags=dict(strict=ch.bool(70))))
